@@ -205,6 +205,10 @@ def random_field(rng: random.Random, used: set[str], versions: list[int], flex_f
     if can_tag and "nullableVersions" not in f and not use_common:
         _tag(rng, f, fv, flexible_fv, flex_from, tags, constructs, last)
         constructs.append("tagged:" + ("struct-array" if array else "struct"))
+    elif can_tag and "nullableVersions" not in f and use_common and rng.random() < 0.5:
+        # a tagged field whose type is a common struct (single or array)
+        _tag(rng, f, fv, flexible_fv, flex_from, tags, constructs, last)
+        constructs.append("tagged:common-struct" + ("-array" if array else ""))
     elif can_tag and "nullableVersions" in f and array and "default" not in f and not use_common and rng.random() < 0.6:
         # tagged nullable struct array without default: the default is the empty array, null has to be sent explicitly; nullable in only
         # some of the versions half of the time
